@@ -78,12 +78,12 @@ def entry(pid):
         e["thorough_cmd"] = f"./check {pid} thorough"
     return e
 
-head = os.popen("git -C /repo log --format=%h --grep='^verif hooks' -n 5").read().split()
+head = os.popen("git -C /repo log --format=%h --grep='^verif hook' -n 5").read().split()
 manifest = {
  "version": 1,
  "setup_cmd": "./setup.sh",
  "hooks": {
-   "guard": "cargo feature `verif` of the neurons crate (src/verif.rs, Network::verif_backward)",
+   "guard": "cargo feature `verif` of the neurons crate (src/verif.rs: parameter / shape / flag accessors, backward wrapper, salted hasher for the maps of feedback blocks; Network::verif_backward; the cfg-switched HashMap import in src/feedback.rs)",
    "enable": "the harness workspaces depend on neurons = { path = \"/repo\", features = [\"verif\"] }; every ./check run starts with cargo build --release --offline, which recompiles neurons from /repo's working tree",
    "baseline_off_cmd": "cd /repo && cargo test --workspace --no-fail-fast --offline",
    "source_commits": head,
